@@ -23,6 +23,7 @@ from ufl.algorithms import compute_form_data
 from ufl.algorithms.apply_function_pullbacks import apply_function_pullbacks
 from ufl.algorithms.apply_geometry_lowering import apply_geometry_lowering
 from ufl.algorithms.apply_integral_scaling import compute_integrand_scaling_factor
+from ufl.algorithms.check_arities import ArityMismatch
 from ufl.algorithms.compute_form_data import preprocess_form
 from ufl.corealg.traversal import unique_pre_traversal
 from ufl.pullback import contravariant_piola, covariant_piola
@@ -119,6 +120,40 @@ def zoo_interior(cell, g):
     return m, out
 
 
+def zoo_complex(cell, g):
+    """sesquilinear forms for complex_mode=True (the test function is conjugated): conj / real / imag nodes
+    survive preprocessing and every stage has to work underneath them"""
+    m = uflgen.mesh(cell, g)
+    td = m.topological_dimension
+    f = uflgen.coef((), cell, g)
+    h = uflgen.coef((), cell, g, degree=2)
+    v = uflgen.arg(0, (), cell, g)
+    u = uflgen.arg(1, (), cell, g)
+    w = uflgen.coef((g,), cell, g)
+    vv = uflgen.arg(0, (g,), cell, g)
+    n = ufl.FacetNormal(m)
+    dx, ds, dS = ufl.dx(m), ufl.ds(m), ufl.dS(m)
+    out = [
+        ("Cmass", ufl.inner(f, v) * dx),
+        ("Cstiff", ufl.inner(ufl.grad(u), ufl.grad(v)) * dx),
+        ("Cnonlin", (1 + f * ufl.conj(f)) * ufl.inner(ufl.grad(h), ufl.grad(v)) * dx),
+        ("Cvec", ufl.inner(w, vv) * dx),
+        ("Cdiv", ufl.inner(ufl.div(w), v) * dx),
+        ("Creim", (ufl.real(f) + ufl.imag(h)) * ufl.conj(v) * dx),
+        ("Cbmass", ufl.inner(f, v) * ds),
+    ]
+    if td == g and td > 1:
+        out.append(("Cflux", ufl.inner(ufl.dot(ufl.grad(f), n), v) * ds))
+    if td == g:
+        out.append(("CSjump", ufl.inner(ufl.jump(f), ufl.jump(v)) * dS))
+        out.append(("CSip", ufl.inner(ufl.avg(ufl.grad(u)), ufl.jump(v, n)) * dS))
+    if td == g and td >= 2:
+        rt = FiniteElement("RT", m.ufl_cell(), 1, (td,), contravariant_piola, HDiv)
+        srt = ufl.FunctionSpace(m, rt)
+        out.append(("Crt", ufl.inner(ufl.Coefficient(srt), ufl.TestFunction(srt)) * dx))
+    return m, out
+
+
 def walk_sides(e, side=None, acc=None):
     """{terminal: set of restriction contexts (None, '+', '-') it occurs in}"""
     acc = {} if acc is None else acc
@@ -186,21 +221,21 @@ def comps(sh):
     return list(itertools.product(*[range(d) for d in sh]))
 
 
-def build_case(name, m, form, opts, out=None, pres=None):
+def build_case(name, m, form, opts, out=None, pres=None, complex_mode=False):
     """returns coqgen.Case or None (skip reason string).  `pres`: the preprocess_form integrands whose SUM
     the output integrand must equal (times the scaling factor)"""
     itype = form.integrals()[0].integral_type()
     if out is None:
         try:
-            fd = compute_form_data(form, **opts)
-        except Exception as e:  # noqa: BLE001  "preprocessing either does this or raises an error"
+            fd = compute_form_data(form, complex_mode=complex_mode, **opts)
+        except (Exception, ArityMismatch) as e:  # noqa: BLE001  "preprocessing either does this or raises an error"
             return f"compute_form_data raises {type(e).__name__}: {str(e)[:120]}"
         outs = [itg for idata in fd.integral_data for itg in idata.integrals]
         if len(outs) != 1:
             return f"expected one output integral, got {len(outs)}"
         out = outs[0].integrand()
     if pres is None:
-        pres = [preprocess_form(form, False).integrals()[0].integrand()]
+        pres = [preprocess_form(form, complex_mode).integrals()[0].integrand()]
     pre = pres[0]
     scale = ufl.as_ufl(compute_integrand_scaling_factor(form.integrals()[0])[0]) \
         if opts.get("do_apply_integral_scaling") else ufl.as_ufl(1)
@@ -305,7 +340,8 @@ def build_case(name, m, form, opts, out=None, pres=None):
     named["SC"] = scale
     case = coqgen.Case(name, out=out, spec=spec, hyps=hyps, named=named, ctx=ctx, comps=[()], tactic=tac,
                        refvalue_terminal=True, side="None" if interior else "s",
-                       note={"integral_type": itype, "options": [k for k, v in opts.items() if v]})
+                       note={"integral_type": itype, "options": [k for k, v in opts.items() if v],
+                             "complex_mode": complex_mode})
     case.pre, case.scale, case.form, case.pres = pre, scale, form, list(pres)
     return case
 
@@ -485,6 +521,42 @@ def run_end_to_end(run):
             if w:
                 rep["witness"] = w
             run.violation(rep, bool(w))
+    # complex mode: sesquilinear forms, conj/real/imag survive and every stage works underneath them
+    ccells = [("triangle", 2)] + ([("interval", 1), ("tetrahedron", 3)] if run.tier == "thorough" else [])
+    for cell, g in ccells:
+        m, forms = zoo_complex(cell, g)
+        td = m.topological_dimension
+        cases = []
+        for (fname, form), o in itertools.product(forms, option_sets(run.tier)):
+            tag = "".join("1" if o[k] else "0" for k in OPTS)
+            name = f"e2eC_{cell[:3]}{g}_{fname}_{tag}"
+            try:
+                c = build_case(name, m, form, o, complex_mode=True)
+            except ufl2coq.Unsupported as e:
+                skipped.append((name, f"unsupported node: {e}"))
+                continue
+            if isinstance(c, str):
+                skipped.append((name, c))
+                continue
+            cases.append(c)
+            run.count_case(name)
+        failing = coqgen.emit_and_check(run, f"C01e2eC_{cell[:3]}{g}", cases, extra_header=header(kinv, td, g),
+                                        timeout=900)
+        seen = set()
+        for case, lemma, msg in failing:
+            if case is None or case.name in seen:
+                if case is None:
+                    run.violation({"broken": "generated complex-mode obligations do not compile", "message": msg}, False)
+                continue
+            seen.add(case.name)
+            w = numeric_check(case.form, {k: (k in case.note["options"]) for k in OPTS}, trials=6, seed=run.seed,
+                              out=case.out, pres=case.pres, complex_mode=True)
+            rep = {"broken_obligation": lemma, "case": case.name, "note": case.note, "coq_message": msg,
+                   "form": str(case.form)[:500], "preprocessed_integrand": str(case.out)[:1500],
+                   "reproduce": "bin/check C01"}
+            if w:
+                rep["witness"] = w
+            run.violation(rep, bool(w))
     raised = [x for x in skipped if str(x[-1]).startswith("compute_form_data raises")]
     run.extra["e2e_raised_allowed_by_statement"] = {"count": len(raised), "examples": raised[:6]}
     run.extra["e2e_skipped"] = [x for x in skipped if x not in raised][:40]
@@ -498,10 +570,10 @@ class FrameEnv(pyden.Env):
     """Random affine map x = x0 + J X (square, invertible) and random polynomial fields in x.
     Physical terminals are evaluated as jets in x; reference derivatives are K^T-transformed."""
 
-    def __init__(self, m, seed):
+    def __init__(self, m, seed, complex_values=False):
         g = m.geometric_dimension
         g = g() if callable(g) else g
-        super().__init__(nv=g, order=2, seed=seed)
+        super().__init__(nv=g, order=2, seed=seed, complex_values=complex_values)
         self.g = g
         rng = self.rng
         while True:
@@ -550,7 +622,7 @@ class FrameEnv(pyden.Env):
         return tot
 
 
-def numeric_check(form, opts, trials=6, seed=0, out=None, pres=None):
+def numeric_check(form, opts, trials=6, seed=0, out=None, pres=None, complex_mode=False):
     """identity-pullback, cell-integral forms only: compare values numerically; returns a witness or None.
     `out` / `pres`: one output integrand and the preprocessed input integrands whose sum it must equal"""
     try:
@@ -562,10 +634,10 @@ def numeric_check(form, opts, trials=6, seed=0, out=None, pres=None):
         if td != gd:
             return None
         if out is None:
-            fd = compute_form_data(form, **opts)
+            fd = compute_form_data(form, complex_mode=complex_mode, **opts)
             out = fd.integral_data[0].integrals[0].integrand()
         if pres is None:
-            pres = [preprocess_form(form, False).integrals()[0].integrand()]
+            pres = [preprocess_form(form, complex_mode).integrals()[0].integrand()]
         itype = form.integrals()[0].integral_type()
         if itype not in ("cell", "interior_facet"):
             return None
@@ -577,7 +649,7 @@ def numeric_check(form, opts, trials=6, seed=0, out=None, pres=None):
             return None
         rng = random.Random(seed)
         for t in range(trials):
-            env = FrameEnv(m, rng.randrange(10**9))
+            env = FrameEnv(m, rng.randrange(10**9), complex_values=complex_mode)
             a = pyden.evaluate(out, env)
             b = None
             for p_ in pres:
@@ -589,12 +661,17 @@ def numeric_check(form, opts, trials=6, seed=0, out=None, pres=None):
                 else:
                     sc = ufl.as_ufl(compute_integrand_scaling_factor(form.integrals()[0])[0])
                     b = b * pyden.evaluate(sc, env)
-            if not a.close_to(pyden.Jet.const(a.nv, a.order, b.value())) and a.value() != b.value():
+            va, vb = a.value(), b.value()
+            if isinstance(va, pyden.Fraction) and isinstance(vb, pyden.Fraction):
+                differ = va != vb
+            else:
+                differ = abs(complex(va) - complex(vb)) > 1e-7 * (1 + abs(complex(va)) + abs(complex(vb)))
+            if differ:
                 return {"options": [k for k, v in opts.items() if v], "form": str(form)[:300],
                         "output_integrand": str(out)[:300], "inputs_applying_there": [str(p_)[:120] for p_ in pres],
                         "J": [[str(x) for x in r] for r in env.J],
                         "preprocessed_value": str(a.value()), "expected_scale_times_original": str(b.value())}
-    except Exception:  # noqa: BLE001
+    except (Exception, ArityMismatch):  # noqa: BLE001
         return None
     return None
 
